@@ -126,6 +126,23 @@ def many_states_grammar(with_error=False):
     return g
 
 
+def many_rules_grammar():
+    """more than 255 rules (and > 255 states): two-letter words over 17 letters, every tenth pair left out"""
+    ts = [chr(97 + i) for i in range(17)]
+    pairs = [(i, j) for i in range(17) for j in range(17) if (i * 17 + j) % 10 != 3]
+    rules = [('S', [ts[i], ts[j]], 0) for (i, j) in pairs]
+    g = gram.Grammar('many_rules', ['S'], ts, 'S', rules)
+    g.pairs = pairs
+    return g
+
+
+def many_rules_inputs(g):
+    ins = [[97 + i, 97 + j] for i in range(17) for j in range(17)]          # every pair: nine in ten are words
+    ins += [[97 + i] for i in range(17)] + [[]]
+    ins += [[97 + i, 97 + j, 97 + (i + j) % 17] for (i, j) in g.pairs[::9]]
+    return ins
+
+
 def many_states_inputs(g):
     semi = [ord(';')] if ';' in g.ts else []
     ins = [list(w.encode()) + semi for w in g.words]
@@ -155,6 +172,7 @@ def c01_corpus(tier, seed):
     entries.append(pipeline.gen_entry(many_terms_grammar()))
     entries.append(pipeline.gen_entry(many_nterms_grammar()))
     entries.append(pipeline.gen_entry(many_states_grammar()))
+    entries.append(pipeline.gen_entry(many_rules_grammar()))
     # small-scope enumeration (seed independent) through the host TUs
     if tier == 'quick':
         fams = [gengram.small_grammars(stride=17, limit=160, max_rules=3, max_rhs=2),
@@ -196,6 +214,9 @@ def check_C01(tier, seed):
             continue
         if e.g.name == 'many_states':
             pipeline.add_jobs(e, many_states_inputs(e.g))
+            continue
+        if e.g.name == 'many_rules':
+            pipeline.add_jobs(e, many_rules_inputs(e.g))
             continue
         pipeline.add_jobs(e, all_inputs(e.g, L if len(e.g.ts) <= 3 else L - 1, cap))
         for s in gengram.sentences(e.g, rng, 4 if tier == 'quick' else 20, max_len=30 if tier == 'quick' else 120):
@@ -696,6 +717,8 @@ def check_C10(tier, seed):
     e0 = [e for e in entries if e.g.name == 'left_rec'][0]
     t0_ = ord(e0.g.ts[0])
     pipeline.add_jobs(e0, [[10] * 65534 + [t0_], [10] * 65536 + [32, 32, t0_, 10, t0_], [10] * 70000 + [32, ord('?')]], verbose=False, tag='deep')
+    # ... and more columns (one line of blanks)
+    pipeline.add_jobs(e0, [[32] * 65534 + [t0_], [32] * 65536 + [t0_, 32, t0_], [32] * 70000 + [ord('?')]], verbose=False, tag='wide')
     # generated lexers whose automaton looks PAST the accepted lexeme before falling back (partial longer matches),
     # multi-character and multi-line lexemes: the position must advance by the lexeme, not by what was scanned
     import lx as lxl
@@ -806,6 +829,9 @@ def check_C16(tier, seed):
     import lx as lxl
     for li, ts in enumerate([[lxl.S('if'), lxl.R('[0-9]+'), lxl.C('+'), lxl.S('++')], [lxl.R('[a-z]+'), lxl.S('=='), lxl.C('=')]][:1 if tier == 'quick' else 2]):
         entries.append(pipeline.lex_entry('c16lex%d' % li, ts))
+    # terms of which one is a proper prefix of another with a NON-accepting stretch between them ('.' and "...", a number and
+    # "1..2"): the lexer runs past the shorter lexeme and must come back to it - with and without the verbose lines
+    entries.append(pipeline.lex_entry('c16lexfb', [lxl.S('...'), lxl.C('.'), lxl.R('[0-9]+'), lxl.S('1..2')]))
     # a parser with a custom lexical analyzer: its verbose trace must report the recognised terms as well
     cat_ = {g.name: g for g in catalogue()}
     eclex = pipeline.clex_entry(cat_['paren_list'], gid='c16clex@clex')
@@ -822,7 +848,7 @@ def check_C16(tier, seed):
                 ins.append(sx)
                 if len(ins) >= (250 if tier == 'quick' else 2000):
                     break
-            ins += [list(b'if 12+3 ++ if7'), list(b'123456+++if')]
+            ins += [list(b'if 12+3 ++ if7'), list(b'123456+++if'), list(b'..'), list(b'1..'), list(b'1..1'), list(b'.....'), list(b'1..2'), list(b'... ..'), list(b'12. 5'), list(b'1.')]
         else:
             ins = ws_inputs(e.g, L if len(e.g.ts) <= 3 else L - 1, [ord('?'), 32], 250 if tier == 'quick' else 2000)
         for (v, st) in ((1, 0), (0, 0), (1, 1), (0, 1), (1, 2), (0, 2)):
@@ -931,14 +957,15 @@ def check_C05(tier, seed):
         for k in range(1 if tier == 'quick' else 3):
             entries.append(pipeline.gen_entry(g, gid='%s@tk%d' % (g.name, k), tkinds={i: kinds[(i + gi + k) % 3] for i in range(len(g.ts))}))
     # random ambiguous grammars with random precedence declarations
-    for i in range(20 if tier == 'quick' else 300):
+    # (thorough: 120 grammars x <= 1500 inputs - the traces of 300 x 2500 took 26 GB in the orchestrator and the OOM killer ended the run)
+    for i in range(20 if tier == 'quick' else 120):
         g = gengram.random_grammar(rng, 'rp%d_%d' % (seed, i), n_nt=rng.choice([1, 2]), n_t=3, max_rhs=3, prec=True)
         try:
             entries.append(pipeline.host_entry(g, 0))
         except ValueError:
             pass
     for e in entries:
-        pipeline.add_jobs(e, all_inputs(e.g, L if len(e.g.ts) <= 3 else L - 1, 400 if tier == 'quick' else 2500), verbose=True)
+        pipeline.add_jobs(e, all_inputs(e.g, L if len(e.g.ts) <= 3 else L - 1, 400 if tier == 'quick' else 1500), verbose=True)
         for s in gengram.sentences(e.g, rng, 3 if tier == 'quick' else 12, max_len=25 if tier == 'quick' else 80):
             pipeline.add_jobs(e, [s], tag='s')
     # design level: on operator grammars the tree the specification builds from its resolved table must be the tree the four
@@ -1985,10 +2012,15 @@ def check_C07(tier, seed):
     bprobs, bstats, brun = buffers.run(tier, 'C07buf')
     for pb in bprobs:
         out.violations.append({'summary': pb, 'kind': 'ct', 'gname': 'buffers', 'source': 'spec/Buffers.tla'})
+    # ---- the option objects (spec/Options.tla): every chain of setters in constant evaluation and at run time, and a parse with the result
+    import options
+    oprobs, ostats, orun = options.run(tier, 'C07opt')
+    for pb in oprobs:
+        out.violations.append({'summary': pb, 'kind': 'ct', 'gname': 'options', 'source': 'spec/Options.tla'})
     out.known = sorted(set(out.known))[:6]
     out.violations = out.violations[:12]
-    out.coverage = {'states': int(rv.distinct + brun.distinct), 'transitions': int(max(rv.generated + brun.generated, 1)), 'traces_validated_against_impl': 0,
-                    'buffer_interface_walks': bstats,
+    out.coverage = {'states': int(rv.distinct + brun.distinct + orun.distinct), 'transitions': int(max(rv.generated + brun.generated + orun.generated, 1)), 'traces_validated_against_impl': 0,
+                    'buffer_interface_walks': bstats, 'option_object_chains': ostats,
                     'grammars': len(tus), 'inputs_with_TLC_generated_expectation': ncases, 'static_asserts_passed(per compiler sum)': nct, 'run_time_comparisons': nrt,
                     'compilers': ['g++ -fsyntax-only', 'clang++ -fsyntax-only'], 'buffers': ['cstring_buffer', 'string_buffer', 'string_view_buffer'],
                     'parser_objects': ['constexpr', 'constructed at run time'],
@@ -2251,7 +2283,9 @@ def check_C13(tier, seed):
             # value-less nonterminals (nterm<no_type>) in the even variants: every non-root nonterminal that is not the left
             # side of a functor-less rule; their functors (>= and >>=) are still called, in order, with the context
             nv = [i for i, x in enumerate(g.nts) if x != g.root] if vi % 2 == 0 else []
-            entries.append(pipeline.gen_entry(g, gid='%s@ctx%d' % (n, vi), ctx=sorted(cs), postprec=pp, noval=nv))
+            # (variants 0 and 1: the even contextual rules KEEP their result in the caller's object and return a reference to it;
+            #  the object the caller reads afterwards must still hold it - 'context-mutations' turns negative otherwise)
+            entries.append(pipeline.gen_entry(g, gid='%s@ctx%d' % (n, vi), ctx=sorted(cs), postprec=pp, noval=nv, ctxref=vi in (0, 1)))
     L = 4 if tier == 'quick' else 5
     for e in entries:
         ins = all_inputs(e.g, L if len(e.g.ts) <= 3 else L - 1, 300 if tier == 'quick' else 2000)
@@ -2345,6 +2379,8 @@ def check_C14(tier, seed):
             entries.append(pipeline.gen_entry(g, gid=n + '@valmt', defines=('VH_MOVE_MAY_THROW',)))
         if not g.has_error():
             entries.append(pipeline.gen_entry(g, gid=n + '@valdflt', dflt=sorted(range(0, len(g.rules), 2))))
+            # (the odd rules without a functor: in most catalogue grammars these are the UNIT rules, whose value is handed on)
+            entries.append(pipeline.gen_entry(g, gid=n + '@valdflt1', dflt=sorted(range(1, len(g.rules), 2))))
         entries.append(pipeline.gen_entry(g, gid=n + '@valctx', ctx=sorted(range(0, len(g.rules), 2))))
         if g.has_error() or n in ('paren_list', 'expr_strat'):
             entries.append(pipeline.gen_entry(g, gid=n + '@valnv', nvterms=[i for i in range(len(g.ts)) if i % 2 == 1]))      # value-less terms
@@ -2458,6 +2494,12 @@ def check_C15(tier, seed):
         pipeline.add_jobs(e, ins[::4], verbose=True, tag='v')
         pipeline.add_jobs(e, ins[::2], verbose=False, stream=2, tag='os')      # diagnostics through the library's own std::ostream inserters
         pipeline.add_jobs(e, ins[::4], verbose=True, stream=2, tag='ov')
+        # the other entry points and an OWNING buffer: context_parse (with and without a stream argument) on a string_buffer
+        # the caller keeps - the lexemes every call hands out must lie in THAT buffer (offsets), whatever other calls do meanwhile
+        pipeline.add_jobs(e, ins[1::4], verbose=False, buf=1, ctx=1, tag='cx')
+        pipeline.add_jobs(e, ins[2::4], verbose=False, buf=1, stream=1, ctx=1, tag='cn')
+        pipeline.add_jobs(e, ins[3::4], verbose=False, buf=1, ctx=2, tag='cc')
+        pipeline.add_jobs(e, ins[3::4], verbose=False, buf=1, stream=1, tag='sb')
         entries.append(e)
     nthr_traces = 0
     images = []
